@@ -699,12 +699,13 @@ func TestVerifC08Repair(t *testing.T) {
 	if r.Thorough() {
 		bases = []int{512, 513, 514, 1024, 1025, 1026, 1200, 2048, 2049, 2050}
 	}
+	worldBases := append([]int{0, 3}, bases...)
 	var rc c08Case
 	replay := r.ReplayCase(&rc)
 	if (replay && rc.Part != "repair") || (!replay && os.Getenv("VERIF_REPLAY") != "") {
 		t.Skip("replay case belongs to another part")
 	}
-	w := newC08World(t, append([]int{0}, bases...)...)
+	w := newC08World(t, worldBases...)
 	c08Selftest(t, r, w)
 	phantom := hash.SHA256Sum([]byte("phantom"))
 
@@ -754,7 +755,10 @@ func TestVerifC08Repair(t *testing.T) {
 			return "skipped", nil, 0
 		}
 		signals := c.Signals
-		if signals == "-" {
+		switch signals {
+		case "": // not given: just enough incorrect signals to activate the procedure
+			signals = strings.Repeat("I", int(circuitRed))
+		case "-": // explicitly none
 			signals = ""
 		}
 		count1 := c08Signal(in.st, 0, signals)
@@ -862,7 +866,79 @@ func TestVerifC08Repair(t *testing.T) {
 		return outcome, trace, firstPass
 	}
 
+	// runDriver: corrupted last page (memory and disk), signals through the State's public methods, then the passes are made
+	// by the product's own loop (xorTreeRepair.start via State.Start) on ticks that the harness feeds into its ticker.
+	runDriver := func(c c08Case) string {
+		in := w.fresh(c.Base)
+		defer func() { in.discard() }()
+		pages := (c.Base-1)/int(PageSize) + 1
+		in.st.xorTree.tree.Insert(phantom, uint32(c.Page)*PageSize)
+		if err := in.inner.Write(c08ctx, func(tx stoabs.WriteTx) error { return in.st.xorTree.writeWithoutLock(tx) }); err != nil {
+			w.trouble("the corrupted leaf could not be written")
+			return "skipped"
+		}
+		if j := in.judge(); strings.Join(j.Fails, "+") != "xor" {
+			w.trouble("an injected corruption was not visible as an XOR mismatch before the repair (cases skipped)")
+			return "skipped"
+		}
+		count := c08Signal(in.st, 0, c.Signals)
+		corrupted := c08RawLeaves(in, xorShelf)
+		ticks := make(chan time.Time) // unbuffered: a tick is taken only when the loop is back at its select
+		rp := in.st.xorTreeRepair
+		rp.ticker.Stop()
+		rp.ticker = &time.Ticker{C: ticks}
+		in.kv.Arm(fault.Plan{})
+		if err := in.st.Start(); err != nil {
+			w.trouble("State.Start failed")
+			return "skipped"
+		}
+		passes := 2*pages + 1
+		tick := func() bool {
+			select {
+			case ticks <- time.Now(): // taken only when the loop is back at its select: the previous pass is over
+				return true
+			case <-time.After(time.Minute):
+				w.trouble("the repair loop did not take a tick (driver case skipped)")
+				return false
+			}
+		}
+		for i := 0; i < passes; i++ {
+			if !tick() {
+				return "skipped"
+			}
+		}
+		// the network layer reports agreement: whatever pass follows does nothing. One more tick is taken only when the last
+		// real pass is over (if the green signal overtakes that pass, 2*pages active passes remain: every page was due twice)
+		in.st.CorrectStateDetected()
+		if !tick() {
+			return "skipped"
+		}
+		rp.shutdown()
+		class := "phantom|mem+disk|last-page-with-one-transaction|" + c08SignalClass(count, count, c.Signals, "") + "|ticker-driven-loop"
+		if !c08Active(count) {
+			now := c08RawLeaves(in, xorShelf)
+			for k, v := range corrupted {
+				if now[k] != v {
+					r.Violation("C08|repair|"+class+"|changed-while-inactive", "the ticker-driven repair loop changed the XOR tree although the procedure is not active", c)
+				}
+			}
+			return "driver:inactive:nothing-changed"
+		}
+		j := in.judge()
+		c08Report(r, "repair", class+"|live", j, c)
+		if len(j.Fails) == 0 {
+			in = in.reopen()
+			c08Report(r, "repair", class+"|restarted", in.judge(), c)
+		}
+		return "driver:repaired"
+	}
+
 	if replay {
+		if rc.Driver {
+			r.Eval(ev.Key(rc))
+			r.Outcome(runDriver(rc))
+			return
+		}
 		mode := fault.None
 		switch rc.Mode {
 		case "error":
@@ -877,6 +953,57 @@ func TestVerifC08Repair(t *testing.T) {
 	}
 	light, heavy := 0, 0
 	var runs int64
+	thr := int(circuitRed)
+	I := func(n int) string { return strings.Repeat("I", n) }
+	activeSignals := []string{I(thr), I(thr + 1), I(thr + 3), I(thr) + "C" + I(thr), "IC" + I(thr+2)}
+	inactiveSignals := []string{"-", I(thr - 1), I(thr) + "C", I(thr+3) + "C" + I(thr-1)}
+	interleaved := [][2]string{{"-", I(thr + 1)}, {I(thr), "C"}, {I(thr - 1), "I"}, {I(thr) + "C", I(thr + 1)}, {I(thr - 1), "CI"}}
+	r.Bound("activation_threshold_read_from_product", thr)
+
+	// (1) the complete signal alphabet on the smallest chain: every sequence over {I, C} of length 0..6, split at every
+	// position into "before the first round of passes" and "between the first and the second round"
+	{
+		var seqs []string
+		var gen func(p string)
+		gen = func(p string) {
+			seqs = append(seqs, p)
+			if len(p) == 6 {
+				return
+			}
+			gen(p + "I")
+			gen(p + "C")
+		}
+		gen("")
+		r.Bound("signal_sequences", len(seqs))
+		si := 0
+		for _, sq := range seqs {
+			for k := 0; k <= len(sq); k++ {
+				si++
+				if !r.Mine(si) || r.Expired() {
+					continue
+				}
+				pre, mid := sq[:k], sq[k:]
+				if pre == "" {
+					pre = "-"
+				}
+				c := c08Case{Part: "repair", Base: 3, Page: 0, Variant: "phantom/mem+disk", Signals: pre, Mid: mid}
+				out, _, _ := runOne(c, fcase{fault.None, 0})
+				runs++
+				r.Eval(ev.Key(c))
+				r.Outcome(out)
+			}
+		}
+	}
+	// (2) the product's own driver: the ticker-driven loop of xorTreeRepair.start makes the passes
+	if s, _ := r.Shard(); s == 0 {
+		for _, sg := range []string{I(thr), I(thr + 1), I(thr - 1), I(thr+1) + "C"} {
+			c := c08Case{Part: "repair", Base: 513, Page: 1, Variant: "phantom/mem+disk", Signals: sg, Driver: true}
+			out := runDriver(c)
+			runs++
+			r.Eval(ev.Key(c))
+			r.Outcome(out)
+		}
+	}
 	for _, base := range bases {
 		pages := (base-1)/int(PageSize) + 1
 		r.Bound(fmt.Sprintf("pages_chain_%d", base), pages)
@@ -897,6 +1024,36 @@ func TestVerifC08Repair(t *testing.T) {
 						continue
 					}
 					c := c08Case{Part: "repair", Base: base, Page: page, Variant: corruption + "/" + place}
+					// the signal history is a dimension: every case gets one of the activating histories (rotating), the cases with fault
+					// enumeration get all of them, plus the histories that must NOT activate the procedure and the interleaved ones
+					c.Signals = activeSignals[(light+heavy)%len(activeSignals)]
+					if withFaults {
+						c.Signals = activeSignals[0]
+						for _, sg := range activeSignals[1:] {
+							sc := c
+							sc.Signals = sg
+							out, _, _ := runOne(sc, fcase{fault.None, 0})
+							runs++
+							r.Eval(ev.Key(sc))
+							r.Outcome(out)
+						}
+						for _, sg := range inactiveSignals {
+							sc := c
+							sc.Signals = sg
+							out, _, _ := runOne(sc, fcase{fault.None, 0})
+							runs++
+							r.Eval(ev.Key(sc))
+							r.Outcome(out)
+						}
+						for _, pm := range interleaved {
+							sc := c
+							sc.Signals, sc.Mid = pm[0], pm[1]
+							out, _, _ := runOne(sc, fcase{fault.None, 0})
+							runs++
+							r.Eval(ev.Key(sc))
+							r.Outcome(out)
+						}
+					}
 					out, trace, firstPass := runOne(c, fcase{fault.None, 0})
 					runs++
 					r.Eval(ev.Key(c))
